@@ -155,6 +155,8 @@ class CodeGenerator:
                     block, pos=max_block_len, newname=newname
                 )
 
+        self._split_phi_edges(ir_function)
+
         self._mark_global(output_stream, ir_function)
         output_stream.emit(SetSymbolType(ir_function.name, "func"))
 
@@ -199,6 +201,44 @@ class CodeGenerator:
             output_stream.emit(dd)
 
         self.reporter.dump_instructions(instruction_list, self.arch)
+
+    @staticmethod
+    def _split_phi_edges(ir_function):
+        """Give an edge its own block when the phi copies for it may not be
+        executed on the other edges leaving the same block.
+
+        The copies into the phi registers of a successor are emitted at the
+        end of the predecessor, before its jump. When that block has more
+        than one successor, the copies are executed whichever way the jump
+        goes. If the phi is still used on another way out (a loop variable
+        read after a do-while loop), its value would be overwritten there
+        (the lost copy problem). Such an edge gets a block of its own, which
+        then holds the copies.
+        """
+        edge_nr = 1
+        for block in list(ir_function):
+            successors = []
+            for successor in block.successors:
+                if successor not in successors:
+                    successors.append(successor)
+            if len(successors) < 2:
+                continue
+            for successor in successors:
+                phis = successor.phis
+                if not any(
+                    isinstance(user, ir.Phi) or user.block is not successor
+                    for phi in phis
+                    for user in phi.used_by
+                ):
+                    continue
+                edge_block = ir.Block(
+                    f"{ir_function.name}_phi_edge_{edge_nr}"
+                )
+                edge_nr += 1
+                ir_function.add_block(edge_block)
+                block.change_target(successor, edge_block)
+                edge_block.add_instruction(ir.Jump(successor))
+                successor.replace_incoming(block, [edge_block])
 
     def select_and_schedule(self, ir_function, frame):
         """Perform instruction selection and scheduling"""
